@@ -523,32 +523,93 @@ func clamped(v ssa.Value, lo, hi float64) (bool, string) {
 }
 
 func ruleGRDclamp(w *World, r *Report) {
-	r.Doc("GRD-clamp", "every conversion of a floating-point value to int8 in the module converts a value that was clamped into [-128,127] on every path (values beyond the trained range are clipped, never wrapped)", 1)
+	r.Doc("GRD-clamp", "every conversion that produces an int8 from a wider number converts a value that was clamped into [-128,127] on every path, and when the clamp is applied to an integer that itself came from a floating-point value, that float→integer conversion was clamped first (values beyond the trained range are clipped, never wrapped; Go leaves an out-of-range float→integer conversion implementation-defined)", 1)
 	n := 0
+	limits := func(k types.BasicKind) (float64, float64, bool) {
+		switch k {
+		case types.Int8:
+			return -128, 127, true
+		case types.Int16:
+			return -32768, 32767, true
+		case types.Int32:
+			return -2147483648, 2147483647, true
+		case types.Int, types.Int64:
+			return -9.2e18, 9.2e18, true
+		case types.Uint8:
+			return 0, 255, true
+		case types.Uint16:
+			return 0, 65535, true
+		case types.Uint32:
+			return 0, 4294967295, true
+		case types.Uint, types.Uint64:
+			return 0, 1.8e19, true
+		}
+		return 0, 0, false
+	}
+	var fns []*ssa.Function
 	for fn := range ssautil.AllFunctions(w.SSA()) {
 		if !inModule(fn) || len(fn.Blocks) == 0 || (fn.Pos().IsValid() && isTestFile(w.Fset, fn.Pos())) {
 			continue
 		}
+		fns = append(fns, fn)
+	}
+	sort.Slice(fns, func(i, j int) bool { return fnName(fns[i]) < fnName(fns[j]) })
+	for _, fn := range fns {
+		root := fn
+		for root.Parent() != nil {
+			root = root.Parent()
+		}
+		inQuantiser := root.Pkg != nil && root.Pkg.Pkg != nil && root.Pkg.Pkg.Path() == modPath+"/"+distPkg
 		idx := 0
 		for _, b := range fn.Blocks {
 			for _, in := range b.Instrs {
 				cv, ok := in.(*ssa.Convert)
-				if !ok || basicKind(cv.Type()) != types.Int8 {
+				if !ok {
 					continue
 				}
-				if k := basicKind(cv.X.Type()); k != types.Float32 && k != types.Float64 {
+				tk, sk := basicKind(cv.Type()), basicKind(cv.X.Type())
+				lo, hi, isInt := limits(tk)
+				if !isInt {
+					continue
+				}
+				fromFloat := sk == types.Float32 || sk == types.Float64
+				_, _, fromInt := limits(sk)
+				toInt8 := tk == types.Int8 && (fromFloat || fromInt && sk != types.Int8)
+				_ = inQuantiser
+				if !toInt8 {
+					continue
+				}
+				if _, isConst := cv.X.(*ssa.Const); isConst {
 					continue
 				}
 				idx++
 				n++
-				ok2, d := clamped(cv.X, -128, 127)
-				r.Cond(ok2, "GRD-clamp", fmt.Sprintf("%s:int8-conversion#%d", fnName(fn), idx), w.Pos(cv.Pos()), d, fnName(fn)+": "+d+" — a component beyond the trained range wraps around (e.g. +1.01·AbsMax becomes −128) instead of saturating, flipping its sign in every later dot product")
+				ok2, d := clamped(cv.X, lo, hi)
+				kind := "int8-conversion"
+				// an integer that is clamped AFTER it was converted from a float: the float→integer step itself
+				// must already be in range (out-of-range conversions are implementation-defined)
+				if ok2 && fromInt {
+					for _, leaf := range phiLeaves(stripRounding(cv.X)) {
+						lc, isCv := leaf.(*ssa.Convert)
+						if !isCv {
+							continue
+						}
+						if k := basicKind(lc.X.Type()); k != types.Float32 && k != types.Float64 {
+							continue
+						}
+						l2, h2, _ := limits(basicKind(lc.Type()))
+						if okF, dF := clamped(lc.X, l2, h2); !okF {
+							ok2, d = false, "the value is clamped only after a float→"+lc.Type().String()+" conversion whose operand is unbounded ("+dF+")"
+						}
+					}
+				}
+				r.Cond(ok2, "GRD-clamp", fmt.Sprintf("%s:%s#%d", fnName(fn), kind, idx), w.Pos(cv.Pos()), d, fnName(fn)+": "+d+" — a component beyond the trained range wraps around instead of saturating (for float→integer: an out-of-range value such as +Inf or 1e19·AbsMax converts to the minimum integer on amd64 and is then clamped to the WRONG side), flipping its sign in every later dot product")
 			}
 		}
 	}
-	r.Count("float_to_int8_conversions", n)
+	r.Count("narrowing_conversions_checked", n)
 	if n == 0 {
-		r.Und("GRD-clamp", "anchor:int8-conversion", "", "no float→int8 conversion found: the quantiser moved")
+		r.Und("GRD-clamp", "anchor:int8-conversion", "", "no conversion to int8 found: the quantiser moved")
 	}
 }
 
@@ -1403,4 +1464,240 @@ func ruleGRDreloc(w *World, r *Report) {
 		found, wt := (pathQuery{fn: fn, target: next, avoid: isUpd, blocked: blocked}).find(posOf(st))
 		r.Cond(!found, "GRD-slot", fmt.Sprintf("reloc:moveBatch#%d:update-pointer", i+1), w.Pos(st.Pos()), "with an updater installed, UpdateNodePointer follows every slot-table switch", "moveBatch switches slotTable[id] but can go on without calling UpdateNodePointer: the index node keeps pointing at the old slot, which is then pushed onto the free list and re-used — the node reads another vector's bytes", w.witness(wt)...)
 	}
+}
+
+// ---------- GRD-own-vec: mmap-backed vector bytes do not outlive the lock they were read under ----------
+
+func isVecAccessor(c *ssa.Call) bool {
+	g := c.Call.StaticCallee()
+	if g == nil {
+		return false
+	}
+	switch fnName(g) {
+	case "pkg/core/hnsw.(*Node).GetVectorF32", "pkg/core/hnsw.(*Node).GetVectorF16", "pkg/core/hnsw.(*Node).GetVectorI8":
+		return true
+	}
+	return false
+}
+
+// aliasesArena: v shares memory with a node's stored vector (the accessor's result, re-sliced or merged by phis).
+func aliasesArena(v ssa.Value, seen map[ssa.Value]bool) bool {
+	if v == nil || seen[v] {
+		return false
+	}
+	seen[v] = true
+	switch x := v.(type) {
+	case *ssa.Call:
+		if isVecAccessor(x) {
+			return true
+		}
+		if c, ok := isBuiltinCall(x, "append"); ok && len(c.Call.Args) > 0 {
+			return aliasesArena(c.Call.Args[0], seen)
+		}
+	case *ssa.Slice:
+		return aliasesArena(x.X, seen)
+	case *ssa.Phi:
+		for _, e := range x.Edges {
+			if aliasesArena(e, seen) {
+				return true
+			}
+		}
+	case *ssa.ChangeType:
+		return aliasesArena(x.X, seen)
+	case *ssa.MakeInterface:
+		return aliasesArena(x.X, seen)
+	case *ssa.UnOp:
+		if al, ok := x.X.(*ssa.Alloc); ok && x.Op == token.MUL {
+			for _, ref := range *al.Referrers() {
+				if st, ok := ref.(*ssa.Store); ok && st.Addr == al && aliasesArena(st.Val, seen) {
+					return true
+				}
+			}
+		}
+	}
+	return false
+}
+
+func ruleGRDownvec(w *World, r *Report) {
+	r.Doc("GRD-own-vec", "no function of the index hands a slice that aliases a node's mmap-backed vector to its caller (returned, or stored in a returned struct): what leaves the lock is a copy. A zero-copy slice read after the lock was released shows another vector's bytes once the slot is reused or relocated, and faults once the arena is unmapped", 3)
+	n := 0
+	for _, fn := range w.pkgSSAFuncs(hnswPkg) {
+		if fn.Parent() != nil {
+			continue
+		}
+		uses := false
+		for _, b := range fn.Blocks {
+			for _, in := range b.Instrs {
+				if c, ok := in.(*ssa.Call); ok && isVecAccessor(c) {
+					uses = true
+				}
+			}
+		}
+		if !uses {
+			continue
+		}
+		if recv := fn.Signature.Recv(); recv != nil && strings.HasSuffix(recv.Type().String(), "hnsw.Node") {
+			continue // the accessors themselves
+		}
+		n++
+		var bad ssa.Instruction
+		how := ""
+		for _, b := range fn.Blocks {
+			for _, in := range b.Instrs {
+				switch x := in.(type) {
+				case *ssa.Return:
+					for i := range x.Results {
+						if aliasesArena(retVal(x, i), map[ssa.Value]bool{}) {
+							bad, how = in, "returned"
+						}
+					}
+				case *ssa.Store:
+					fa, ok := x.Addr.(*ssa.FieldAddr)
+					if !ok || !aliasesArena(x.Val, map[ssa.Value]bool{}) {
+						continue
+					}
+					owner, f := structFieldName(fa.X.Type(), fa.Field)
+					if owner == "hnsw.vecData" || owner == "hnsw.Node" {
+						continue // re-wiring a node to its own bytes
+					}
+					bad, how = in, "stored in "+owner+"."+f
+				}
+			}
+		}
+		pos := w.Pos(fn.Pos())
+		if bad != nil {
+			pos = w.Pos(bad.Pos())
+		}
+		r.Cond(bad == nil, "GRD-own-vec", "no-escape:"+fnName(fn), pos, "reads stored vectors without handing the mapped bytes out", fnName(fn)+": a slice that aliases a node's mmap-backed vector is "+how+" and leaves the function (and its lock): the caller reads it unprotected — after a delete+vacuum+insert the slot holds another vector's bytes, after a relocation stale bytes, and after Close/Compress/VDeleteIndex the read faults (SIGSEGV)")
+	}
+	r.Count("functions_reading_stored_vectors", n)
+	if n < 3 {
+		r.Und("GRD-own-vec", "anchor:vector-readers", "", fmt.Sprintf("only %d functions read stored vectors through the Node accessors", n))
+	}
+}
+
+// ---------- GRD-closed: no read of stored vectors after Close ----------
+
+func ruleGRDclosed(w *World, r *Report, lr *lckResult) {
+	r.Doc("GRD-closed", "every exported method of the index (and of its optimizer) that reads stored vectors tests the closed flag — while holding activeMu or metaMu, the locks Close needs before it unmaps — on every path before its first read (here or in the callee that reads): after Close the arena is unmapped, the nodes still point into it, and the index object stays reachable through the DB map", 5)
+	fns := w.pkgSSAFuncs(hnswPkg)
+	// functions that (transitively, static calls and closures) reach a vector accessor
+	reads := map[*ssa.Function]bool{}
+	direct := func(fn *ssa.Function) bool {
+		for _, b := range fn.Blocks {
+			for _, in := range b.Instrs {
+				if c, ok := in.(*ssa.Call); ok && isVecAccessor(c) {
+					return true
+				}
+			}
+		}
+		return false
+	}
+	for _, fn := range fns {
+		if direct(fn) {
+			reads[fn] = true
+		}
+	}
+	for changed := true; changed; {
+		changed = false
+		for _, fn := range fns {
+			if reads[fn] {
+				continue
+			}
+			for _, b := range fn.Blocks {
+				for _, in := range b.Instrs {
+					if cc := callCommon(in); cc != nil {
+						if g := cc.StaticCallee(); g != nil && reads[g] {
+							reads[fn] = true
+							changed = true
+						}
+					}
+					if mc, ok := in.(*ssa.MakeClosure); ok {
+						if g, ok := mc.Fn.(*ssa.Function); ok && reads[g] {
+							reads[fn] = true
+							changed = true
+						}
+					}
+				}
+			}
+		}
+	}
+	// a closed test counts only when it is made under a lock that Close needs before it unmaps (activeMu or metaMu):
+	// a test made before the lock is taken can be overtaken by a complete Close
+	isClosedTest := func(in ssa.Instruction) bool {
+		if !isIndexClosedTest(in) {
+			return false
+		}
+		st, ok := lr.mustAt[in]
+		return ok && guardSatisfied(st, "hnsw.Index.activeMu")
+	}
+	// unsafe[fn]: some path from fn's entry reaches a read of stored vectors (direct, or through a callee/closure that
+	// is itself unsafe) without a closed test. Least fixpoint, growing from the direct readers.
+	unsafe := map[*ssa.Function]bool{}
+	unprotected := func(fn *ssa.Function) (bool, []ssa.Instruction) {
+		isRead := func(in ssa.Instruction) bool {
+			if c, ok := in.(*ssa.Call); ok && isVecAccessor(c) {
+				return true
+			}
+			if cc := callCommon(in); cc != nil {
+				if g := cc.StaticCallee(); g != nil && unsafe[g] {
+					return true
+				}
+			}
+			if mc, ok := in.(*ssa.MakeClosure); ok {
+				if g, ok := mc.Fn.(*ssa.Function); ok && unsafe[g] {
+					return true
+				}
+			}
+			return false
+		}
+		return (pathQuery{fn: fn, target: isRead, avoid: isClosedTest}).find(entryPos(fn))
+	}
+	for changed := true; changed; {
+		changed = false
+		for _, fn := range fns {
+			if unsafe[fn] || !reads[fn] {
+				continue
+			}
+			if recv := fn.Signature.Recv(); recv != nil && strings.HasSuffix(recv.Type().String(), "hnsw.Node") {
+				continue
+			}
+			if bad, _ := unprotected(fn); bad {
+				unsafe[fn] = true
+				changed = true
+			}
+		}
+	}
+	n := 0
+	for _, fn := range fns {
+		if fn.Parent() != nil || !reads[fn] {
+			continue
+		}
+		o, ok := fn.Object().(*types.Func)
+		if !ok || !o.Exported() {
+			continue
+		}
+		recv := fn.Signature.Recv()
+		if recv == nil || !(strings.HasSuffix(recv.Type().String(), "hnsw.Index") || strings.HasSuffix(recv.Type().String(), "hnsw.GraphOptimizer")) {
+			continue
+		}
+		n++
+		if why, ok := grdClosedExceptions[shortFn(fn)]; ok {
+			r.Ok("GRD-closed", "closed-test:"+shortFn(fn), w.Pos(fn.Pos()), "exception: "+why)
+			r.Except(shortFn(fn) + ": " + why)
+			continue
+		}
+		_, wit := unprotected(fn)
+		r.Cond(!unsafe[fn], "GRD-closed", "closed-test:"+shortFn(fn), w.Pos(fn.Pos()), "the closed flag is tested (here or in the callee that reads) before the first read of stored vectors", shortFn(fn)+" reads stored vectors on a path that never tests the closed flag: called after Close (the index stays in the DB map; background work such as an async compile or a late request still holds the engine) it dereferences the unmapped arena and the process dies with SIGSEGV", w.witness(wit)...)
+	}
+	r.Count("exported_vector_readers", n)
+	if n < 5 {
+		r.Und("GRD-closed", "anchor:exported-vector-readers", "", fmt.Sprintf("only %d exported methods read stored vectors", n))
+	}
+}
+
+var grdClosedExceptions = map[string]string{
+	"Index.LoadSnapshotData": "runs on an index that is being constructed by LoadFromSnapshot and is not published yet: nothing can have closed it",
+	"Index.Close":            "Close is the operation that sets the flag",
+	"Index.AddOld":           "legacy insertion path kept for reference; no caller in the module (its replacement Add/addActive holds activeMu and tests the flag)",
 }
